@@ -9,22 +9,27 @@
 (*   Complete  farm.Hand._res -> schedule.complete                         *)
 (*   NewTarget a target becomes known to the database                      *)
 (*                                                                         *)
-(* One periodic node (task or analysis) with a set of events; the          *)
-(* configuration is a variable chosen in Init so that one TLC run covers   *)
-(* every configuration of the bound.  The transition system is             *)
-(* IMPLEMENTATION SHAPED: it is what defer / complete do on the pinned     *)
+(* One or two periodic nodes (task or analysis) in DIFFERENT packages,     *)
+(* without data dependencies between them, each with its own set of        *)
+(* events.  A node is named by its tag "<package>.<algorithm>"; two nodes  *)
+(* may share the short algorithm name ("t0.a", "t1.a") or not ("t0.a",     *)
+(* "t1.b").  The configuration is a variable chosen in Init so that one    *)
+(* TLC run covers every configuration of the bound.  The transition system *)
+(* is IMPLEMENTATION SHAPED: it is what defer / complete do on the pinned  *)
 (* tree (a node that fired keeps status `waiting` after completion, defer  *)
-(* skips it, and no timer is requested for an event that has fired).       *)
+(* skips it, one timer is requested for the earliest event not yet due of  *)
+(* the nodes that were evaluated, boot events are remembered per event).   *)
 (* DelayImpl (module Moment, CONSTANT Variant) is the transcription of     *)
 (* _delay used by Defer.                                                   *)
 (*                                                                         *)
-(* PROPERTY LEVEL (bottom): FireTargets, BootFires, BootOnce, Armed,       *)
-(* Recurs.  They only speak about the clock, the pending timer requests,   *)
-(* queue membership, the node's pending / executing targets and Occ(e).    *)
+(* PROPERTY LEVEL (bottom), all per node (and per boot event of a node):   *)
+(* FireTargets, BootFires, BootOnce, Armed, Recurs.  They only speak about *)
+(* the clock, the pending timer requests, queue membership, the node's     *)
+(* pending / executing targets and Occ(e).                                 *)
 (***************************************************************************)
 EXTENDS Moment
 
-CONSTANTS Configs,   \* set of [kind : {"task","analysis"}, events : SUBSET EventSpec, start : Nat]
+CONSTANTS Configs,   \* set of [start : Nat, nodes : [tags -> [kind : {"task","analysis"}, events : SUBSET EventSpec]]]
           MaxEnv,    \* bound on environment steps (Tick, Advance, NewTarget)
           Jumps      \* clock increments the environment may choose
 
@@ -36,48 +41,51 @@ VARIABLES cfg,       \* the configuration (constant along a behaviour)
           up,        \* periodics() has run
           clock,     \* wall clock = reactor clock (instant, seconds)
           timers,    \* due instants of the pending callLater(.., defer) requests
-          status,    \* node attribute 'status': initial / delayed / waiting / running
-          queued,    \* node in schedule.que
-          todo,      \* node attribute 'todo'
-          exec,      \* GROUND TRUTH: targets handed to workers, result not back yet
-          booted,    \* boot events in schedule.booted
+          status,    \* [node -> node attribute 'status': initial / delayed / waiting / running]
+          queued,    \* [node -> node in schedule.que]
+          todo,      \* [node -> node attribute 'todo']
+          exec,      \* [node -> GROUND TRUTH: targets handed to workers, result not back yet]
+          booted,    \* <<node, boot event>> pairs in schedule.booted
           targets,   \* dawgie.db.targets()
-          lastFire,  \* instant of the last firing (-1: never); history variable of the property
+          lastFire,  \* [node -> instant of the last firing (-1: never)]; history variable of the property
           env        \* environment steps left
 
 fvars == <<cfg, up, clock, timers, status, queued, todo, exec, booted, targets, lastFire, env>>
 
-Ev      == cfg.events
-TimedEv == { e \in Ev : e.k # "boot" }
-BootEv  == { e \in Ev : e.k = "boot" }
-Want    == IF cfg.kind = "analysis" THEN {ALL} ELSE targets
-Min(S)  == CHOOSE x \in S : \A y \in S : x <= y
-Horizon == NowDays * DAY
+Nodes      == DOMAIN cfg.nodes
+Kind(n)    == cfg.nodes[n].kind
+Ev(n)      == cfg.nodes[n].events
+TimedEv(n) == { e \in Ev(n) : e.k # "boot" }
+BootEv(n)  == { e \in Ev(n) : e.k = "boot" }
+Want(n)    == IF Kind(n) = "analysis" THEN {ALL} ELSE targets
+Min(S)     == CHOOSE x \in S : \A y \in S : x <= y
+Horizon    == NowDays * DAY
 
 -----------------------------------------------------------------------------
 (* implementation-shaped transition system *)
 
-DelayOf(e, c) == IF e.k = "boot" THEN (IF e \in booted THEN Err ELSE Val(0))   \* Err: _DelayNotKnowableError
-                 ELSE DelayImpl(e, c)
+DelayOf(n, e, c) == IF e.k = "boot" THEN (IF <<n, e>> \in booted THEN Err ELSE Val(0))   \* Err: _DelayNotKnowableError
+                    ELSE DelayImpl(e, c)
+Due(n, c)   == { e \in Ev(n) : DelayOf(n, e, c).ok /\ DelayOf(n, e, c).d <= Window }
+Later(n, c) == { DelayOf(n, e, c).d : e \in { x \in Ev(n) : DelayOf(n, x, c).ok /\ DelayOf(n, x, c).d > Window } }
 
 (* schedule.defer at instant c; T = the timer requests that remain pending *)
 Defer(c, T) ==
-    LET res   == [e \in Ev |-> DelayOf(e, c)]
-        due   == { e \in Ev : res[e].ok /\ res[e].d <= Window }
-        later == { res[e].d : e \in { x \in Ev : res[x].ok /\ res[x].d > Window } }
-    IN IF status \in {"running", "waiting"}
-       THEN timers' = T /\ UNCHANGED <<status, queued, todo, booted, lastFire>>
-       ELSE /\ booted' = booted \cup BootEv
-            /\ timers' = IF later = {} THEN T ELSE T \cup {c + Min(later)}
-            /\ IF due # {}
-               THEN /\ queued' = TRUE /\ status' = "waiting"
-                    /\ todo' = todo \cup Want /\ lastFire' = c
-               ELSE status' = "delayed" /\ UNCHANGED <<queued, todo, lastFire>>
+    LET E == { n \in Nodes : status[n] \notin {"running", "waiting"} }      \* the nodes defer() looks at
+        F == { n \in E : Due(n, c) # {} }                                    \* ... and queues
+        L == UNION { Later(n, c) : n \in E }
+    IN /\ booted'   = booted \cup UNION { { <<n, e>> : e \in BootEv(n) } : n \in E }
+       /\ timers'   = IF L = {} THEN T ELSE T \cup {c + Min(L)}
+       /\ status'   = [n \in Nodes |-> IF n \in F THEN "waiting" ELSE IF n \in E THEN "delayed" ELSE status[n]]
+       /\ queued'   = [n \in Nodes |-> queued[n] \/ n \in F]
+       /\ todo'     = [n \in Nodes |-> IF n \in F THEN todo[n] \cup Want(n) ELSE todo[n]]
+       /\ lastFire' = [n \in Nodes |-> IF n \in F THEN c ELSE lastFire[n]]
 
 FInit == /\ cfg \in Configs
          /\ up = FALSE /\ clock = cfg.start /\ timers = {}
-         /\ status = "initial" /\ queued = FALSE /\ todo = {} /\ exec = {}
-         /\ booted = {} /\ targets = {T1} /\ lastFire = -1 /\ env = MaxEnv
+         /\ status = [n \in Nodes |-> "initial"] /\ queued = [n \in Nodes |-> FALSE]
+         /\ todo = [n \in Nodes |-> {}] /\ exec = [n \in Nodes |-> {}]
+         /\ booted = {} /\ targets = {T1} /\ lastFire = [n \in Nodes |-> -1] /\ env = MaxEnv
 
 Boot == /\ ~up /\ up' = TRUE
         /\ Defer(clock, timers)
@@ -94,17 +102,20 @@ Advance(dt) == /\ up /\ env > 0 /\ clock + dt < Horizon
                /\ clock' = clock + dt /\ env' = env - 1
                /\ UNCHANGED <<cfg, up, timers, status, queued, todo, exec, booted, targets, lastFire>>
 
-Avail == IF ALL \in exec THEN {} ELSE todo \ exec
-Dispatch == /\ up /\ queued /\ Avail # {}
-            /\ exec' = exec \cup Avail /\ todo' = todo \ Avail /\ status' = "running"
+(* one farm.dispatch releases everything that can be released (the nodes do not depend on each other) *)
+Avail(n) == IF ~queued[n] \/ ALL \in exec[n] THEN {} ELSE todo[n] \ exec[n]
+Dispatch == /\ up /\ \E n \in Nodes : Avail(n) # {}
+            /\ exec'   = [n \in Nodes |-> exec[n] \cup Avail(n)]
+            /\ todo'   = [n \in Nodes |-> todo[n] \ Avail(n)]
+            /\ status' = [n \in Nodes |-> IF Avail(n) # {} THEN "running" ELSE status[n]]
             /\ UNCHANGED <<cfg, up, clock, timers, queued, booted, targets, lastFire, env>>
 
-Complete(x) == /\ x \in exec
-               /\ exec' = exec \ {x}
-               /\ IF todo = {} /\ exec' = {}
-                  THEN queued' = FALSE /\ status' = "waiting"
-                  ELSE UNCHANGED <<queued, status>>
-               /\ UNCHANGED <<cfg, up, clock, timers, todo, booted, targets, lastFire, env>>
+Complete(n, x) == /\ x \in exec[n]
+                  /\ exec' = [exec EXCEPT ![n] = @ \ {x}]
+                  /\ IF todo[n] = {} /\ exec'[n] = {}
+                     THEN queued' = [queued EXCEPT ![n] = FALSE] /\ status' = [status EXCEPT ![n] = "waiting"]
+                     ELSE UNCHANGED <<queued, status>>
+                  /\ UNCHANGED <<cfg, up, clock, timers, todo, booted, targets, lastFire, env>>
 
 NewTarget == /\ up /\ env > 0 /\ T2 \notin targets
              /\ targets' = targets \cup {T2} /\ env' = env - 1
@@ -112,49 +123,54 @@ NewTarget == /\ up /\ env > 0 /\ T2 \notin targets
 
 FNext == \/ Boot \/ Tick \/ Dispatch \/ NewTarget
          \/ \E dt \in Jumps : Advance(dt)
-         \/ \E x \in exec : Complete(x)
+         \/ \E n \in Nodes : \E x \in exec[n] : Complete(n, x)
 
 FSpec == FInit /\ [][FNext]_fvars
 
 -----------------------------------------------------------------------------
-(* PROPERTY LEVEL *)
+(* PROPERTY LEVEL -- every operator is about ONE periodic node n *)
 
-Busy        == queued \/ exec # {}
-Fired       == todo' \ todo # {} \/ (queued' /\ ~queued)        \* observable: the node was put on the queue / got work
-AllOcc      == UNION { OccTab[e] : e \in TimedEv }
-Upcoming(c) == { m \in AllOcc : m >= c }
+Busy(n)        == queued[n] \/ exec[n] # {}
+Fired(n)       == todo'[n] \ todo[n] # {} \/ (queued'[n] /\ ~queued[n])   \* observable: the node was put on the queue / got work
+AllOcc(n)      == UNION { OccTab[e] : e \in TimedEv(n) }
+Upcoming(n, c) == { m \in AllOcc(n) : m >= c }
 
 (* a due event queues its algorithm for all currently known targets (the
    all-targets marker for an analysis) *)
-C20_FireTargets == [][ Fired => (queued' /\ (IF cfg.kind = "analysis" THEN {ALL} ELSE targets') \subseteq todo') ]_fvars
+FireTargetsStep(n) == Fired(n) => (queued'[n] /\ (IF Kind(n) = "analysis" THEN {ALL} ELSE targets') \subseteq todo'[n])
 
-(* a boot event fires when the pipeline starts ... *)
-C20_BootFires == [][ (~up /\ up' /\ BootEv # {}) => (Fired /\ queued') ]_fvars
-(* ... and only then: any other firing is that of a timed event that is due
-   (some occurrence is at most Window ahead; no lower bound, as in (a)) *)
-Justified    == \E m \in AllOcc : m - Window <= clock'
-C20_BootOnce == [][ (Fired /\ (up \/ BootEv = {})) => Justified ]_fvars
+(* every boot event of every node fires when the pipeline starts ... *)
+BootFiresStep(n) == \A e \in BootEv(n) : (~up /\ up') => (Fired(n) /\ queued'[n])
+(* ... and only then: any other firing of the node is that of a timed event
+   that is due (some occurrence is at most Window ahead; no lower bound, as
+   in (a)) *)
+Justified(n)    == \E m \in AllOcc(n) : m - Window <= clock'
+BootOnceStep(n) == (Fired(n) /\ (up \/ BootEv(n) = {})) => Justified(n)
 
 (* every periodic node that is neither queued nor executing has a pending
    timer that re-evaluates it no later than its next occurrence *)
-Armed == (up /\ ~Busy) => (Upcoming(clock) = {} \/ \E t \in timers : \A m \in Upcoming(clock) : t <= m)
-C20_Armed == Armed
+Armed(n) == (up /\ ~Busy(n)) => (Upcoming(n, clock) = {} \/ \E t \in timers : \A m \in Upcoming(n, clock) : t <= m)
 
 (* while the pipeline stays up a timed event fires again each period: when
    the clock passes an occurrence the node is fired for it (at most Window
    early), unless it was still queued or executing when the moment came *)
-Crossed(c1, c2) == { m \in AllOcc : c1 < m /\ m <= c2 }
-RecursStep == (up /\ clock' > clock) =>
-                 \A m \in Crossed(clock, clock') : Busy \/ lastFire' >= m - Window
-C20_Recurs == [][RecursStep]_fvars
+Crossed(n, c1, c2) == { m \in AllOcc(n) : c1 < m /\ m <= c2 }
+RecursStep(n) == (up /\ clock' > clock) =>
+                    \A m \in Crossed(n, clock, clock') : Busy(n) \/ lastFire'[n] >= m - Window
+
+C20_FireTargets == [][\A n \in Nodes : FireTargetsStep(n)]_fvars
+C20_BootFires   == [][\A n \in Nodes : BootFiresStep(n)]_fvars
+C20_BootOnce    == [][\A n \in Nodes : BootOnceStep(n)]_fvars
+C20_Armed       == \A n \in Nodes : Armed(n)
+C20_Recurs      == [][\A n \in Nodes : RecursStep(n)]_fvars
 
 (* the recorded finding (DESIGN section 6, #11): after the firing completes the
    node keeps status `waiting`, which defer() skips, and nothing re-arms *)
-KnownIdleWaiting == up /\ ~Busy /\ status = "waiting"
-C20_ArmedOrKnown  == Armed \/ KnownIdleWaiting
-C20_RecursOrKnown == [][RecursStep \/ KnownIdleWaiting]_fvars
+KnownIdleWaiting(n) == up /\ ~Busy(n) /\ status[n] = "waiting"
+C20_ArmedOrKnown  == \A n \in Nodes : Armed(n) \/ KnownIdleWaiting(n)
+C20_RecursOrKnown == [][\A n \in Nodes : RecursStep(n) \/ KnownIdleWaiting(n)]_fvars
 
-TypeOK == /\ status \in {"initial", "delayed", "waiting", "running"}
-          /\ todo \subseteq {T1, T2, ALL} /\ exec \subseteq {T1, T2, ALL}
+TypeOK == /\ \A n \in Nodes : /\ status[n] \in {"initial", "delayed", "waiting", "running"}
+                              /\ todo[n] \subseteq {T1, T2, ALL} /\ exec[n] \subseteq {T1, T2, ALL}
           /\ \A t \in timers : t >= clock
 =============================================================================
